@@ -8,14 +8,27 @@ CFG = {
             "peers",
             400,
             5000
+        ],
+        [
+            "reqsel",
+            480,
+            4000
+        ],
+        [
+            "loadnet",
+            30,
+            300
         ]
     ],
-    "rule": "peers: histories on the REAL PeerList of a fresh channel and of 0..2 isolated sub-channel lists, with peerHeap.rng replaced by a scripted logged source and the SetStrategy map iteration order logged: (a) mixed histories of 10..50 (thorough ..110) ops Add/Remove/Get/GetNew/load change+Channel.updatePeer/SetStrategy over a pool of 3..12 host:ports on 4 shared hosts (plus port-less and empty-host strings), previously-selected sets built as AddSelectedPeer does, host:ports only, hosts only, every member, or arbitrary strings; loads (inbound, outbound, pending) and custom scores incl. 0, 2^31, 2^63, 2^64-1; (b) fairness windows of 3n consecutive Get(nil) after n<=14 Adds and random selections with random / largest / zero jitter, with and without a preceding shrink of a 6..35-peer list; (c) a fixed boundary script (empty list, duplicate Add, Remove of a non-member, re-Add, every member tried, peer shared with an isolated list); (d) one deterministic 40->2 shrink reproducing the recorded fairness finding. Every history is also run through the extracted model (results, draws consumed, chosenCount, full heap array with score/order/index, order counter, key set after every op). Non-trivial = history ending with more than one peer (mixed), every fairness/boundary history; distinct by input.",
+    "rule": "peers: histories on the REAL PeerList of a fresh channel and of 0..2 isolated sub-channel lists, with peerHeap.rng replaced by a scripted logged source and the SetStrategy map iteration order logged: (a) mixed histories of 10..50 (thorough ..110) ops Add/Remove/Get/GetNew/load change+Channel.updatePeer/SetStrategy over a pool of 3..12 host:ports on 4 shared hosts (plus port-less and empty-host strings), previously-selected sets built as AddSelectedPeer does, host:ports only, hosts only, every member, or arbitrary strings; loads (inbound, outbound, pending) and custom scores incl. 0, 2^31, 2^63, 2^64-1; (b) fairness windows of 3n consecutive Get(nil) after n<=14 Adds and random selections with random / largest / zero jitter, with and without a preceding shrink of a 6..35-peer list; (c) a fixed boundary script (empty list, duplicate Add, Remove of a non-member, re-Add, every member tried, peer shared with an isolated list); (d) one deterministic 40->2 shrink reproducing the recorded fairness finding. Every history is also run through the extracted model (results, draws consumed, chosenCount, full heap array with score/order/index, order counter, key set after every op). Non-trivial = history ending with more than one peer (mixed), every fairness/boundary history; distinct by input. Load changes build the peer's inert connections with the pending calls spread at random over connections of BOTH directions (all on connections the peer dialled in a third of the cases), every connection also carrying 0..3 calls of the peer's own and 1..3 expired ids; NumPendingOutbound / NumConnections are compared with the known numbers. reqsel: (a) 3/4 of the cases: a real RequestState taken through 3..6 attempts [Get(rs.PrevSelectedPeers()) then rs.AddSelectedPeer(peer)] on the real list of a channel or an isolated sub-channel, 1..2 requests per case, pools of 3..5 hosts x 1..3 ports (plus port-less, empty-host, multi-colon and bracketed-IPv6 pools), scores arranged so that the siblings of a tried peer rank ahead of untried hosts, 0..n other operations (Add/Remove/Get/load change) between attempts; model run_reqsel observes result, heap dump and the request's set after every attempt; statement oracles on the set handed to selection (every tried peer and host, nothing else) and on the selected peer (host tried only if no member on an untried host exists, host:port only if no untried member exists, minimum rank in the tier); (b) 1/12: Channel.RunWithRetry + SubChannel.BeginCall to 127.0.0.{1..4}:{1..3} where nothing listens (3..6 attempts, connection refused), same oracles; (c) 1/6 x 6: peerload cases (0..3 inert connections per direction with 0..4 exchanges per set) against run_peerload and against the known number of our calls and the statement's score. loadnet: hub + 2..4 remote channels over loopback, each remote connected by a connection it dialled / one the hub dialled / both / none; 8..17 random steps (hub starts / finishes a held call to a peer, a peer starts / finishes a call to the hub); after each step NumPendingOutbound of every peer = calls the harness has in flight to it, and Get(nil) on the channel's list and on an isolated sub-channel's list returns a peer with minimum (tier, pending); every peer's real connection loads also run through run_peerload.",
     "trusted_base": COMMON_TRUSTED + [
         "modelled by hand (tied by correspondence on every op incl. the internal heap array): peer_heap.go entirely, container/heap Push/Pop/Remove/Fix/up/down (re-modelled from the go1.23 stdlib source), PeerList.Add/Remove/Get/GetNew/choosePeer/onPeerChange/updatePeer/SetStrategy/Len/Copy/IntrospectList, Channel.updatePeer over the channel's list and isolated sub-channel lists, Peer.chosenCount; getHost/AddSelectedPeer are those of Model/Retry.v (C17)",
         "regenerated from source each run (go2v): preferIncomingCalculator.GetScore, leastPendingCalculator.GetScore, zeroCalculator.GetScore over (inbound, outbound, pending) with math.MaxUint64 / math.MaxInt32 as literals",
         "oracle inputs of the model, universally quantified in the theorems: the two rng.Intn draws (Intn k = raw mod k) and the map iteration order of SetStrategy; the harness scripts the former through rand.Source and logs the latter through the ScoreCalculator callback",
         "overlay harness/overlay/zz_verif_c15.go: snapshot of peerHeap.peerScores/order/peersByHostPort, rng replacement, inert connections giving a Peer a chosen (inbound, outbound, pending) load, Channel.updatePeer, the library's calculators, chosenCount",
+        "regenerated from source each run (go2v method translator, Gen/GenPeerSel.v): retry.go getHost (search loop with early return), RequestState.AddSelectedPeer (nil-map test, map literal, insertions), RequestState.PrevSelectedPeers; peer.go Peer.NumConnections, Peer.NumPendingOutbound (both range loops); mex.go messageExchangeSet.count.  Proofs/GenPeerSelP.v proves them equal to Spec host_of, Model/Retry.v add_selected (as sets) and Model/ReqSel.v pending_calls",
+        "translator extensions used by GenPeerSel (go2v/methods.go, semantics in Base/GoSemColl.v): map[string]struct{} as a nilable string set (nil test, literal, insertion with panic on nil, membership), struct{} as unit, []*T as list T (len, range), `return` inside a counted for loop (go_for_ret), Lock/Unlock/RLock/RUnlock of sync mutexes dropped (sequential meaning), StructRep.Only; hint `rs == nil` => false (the functions are translated for a non-nil RequestState; the nil receiver is exercised by the harness only); pointers to structs are never nil in the representation",
+        "overlay: VerifSetPeerConns / VerifPeerConnLoads (inert connections with BOTH exchange sets and expired ids populated; field-by-field reader of real connections' exchange-set sizes)",
         "Spec/PeerSelect.v: eligibility tiers, least-loaded, default ranking, written from the property statement and the doc comments of Get/AddSelectedPeer/peer_strategies.go"
 ],
     "assumptions": [
@@ -23,6 +36,8 @@ CFG = {
         "pending outbound calls < MaxInt32 for the tier order (at MaxInt32 the generated scores of adjacent tiers meet); uint64 order counter does not wrap within the window (explicit hypotheses of C15_fair_partial / C15_stamp_bound)",
         "fairness at full strength is refuted (C15_fair_refuted, known finding peerlist:fairness-after-shrink); C15_fair_partial holds under the stamp bound, which C15_stamp_bound establishes for histories without Remove; re-establishment of the bound after a Remove is not proved",
         "the heap order on (score, order) is NOT an invariant of the pinned code (C15_heap_order_refuted: swapOrder fixes stale positions); selection minimality and fairness are proved without it (heap order on the score; order only among elements stamped after the window bound)",
+        "the request theorems (C15_retry_*) take the host function of the code: the text before the LAST ':' (after the fix of c15:ipv6-host a bracketed IPv6 host:port \"[::1]:80\" has host \"[::1]\"; the oracle's host function is written separately and is bracket-aware); they cover Get as SubChannel.BeginCall uses it, any history on the list between two attempts, and no concurrent mutation of one RequestState (a request's attempts are sequential)",
+        "C15_pending_counts_our_calls / C15_default_rank_of_connections: total pending < 2^63 (int never wraps), pending < 2^31-1 and connection counts < 2^63 for the rank order",
         "scCount / root-list removal of peers (RootPeerList.onClosedConnRemoved) belong to C16 and are not modelled"
     ]
 }
